@@ -63,6 +63,7 @@ type Frame struct {
 	nameDef  map[string]string // snap variables defined on some merged arms only: the condition under which they are
 	cut      map[*ssa.BasicBlock]bool
 	loopAC   map[*loopHdr]*assignsCtx // modifies clauses of the cut loops (checked inside their bodies)
+	iterWM   string                   // allocation watermark at the most recent loop cut of this frame (iterfresh)
 	unrolled map[*ssa.BasicBlock]int
 	retTo    ssa.Value // value in the caller frame that receives the result (nil: discard)
 	deferSite ssa.Instruction // for an inlined deferred call: the defer statement (after-hooks fire when it has run)
